@@ -14,19 +14,19 @@ THEOREMS_PINNED = [
     ('cors_verdict_most_specific_rule',
      'forall (parse : bytes -> option uparts) (conn_scheme : bytes) (cfg : ccfg) (hist : list (bytes * allow_list)) (r : request) (a : bytes), rs_reach hist (cc_rules cfg) -> header H_HOST r = Some a -> req_verdict parse conn_scheme cfg r = cors_spec parse (hist_lookup cfg hist) (rq_method r) conn_scheme a (rq_path r) (header H_ORIGIN r)'),
     ('cors_decision',
-     'forall (parse : bytes -> option uparts) (conn_scheme : bytes) (cfg : ccfg) (c : cache) (now : N) (r0 : request) (a o : bytes), mem_byte c_colon conn_scheme = false -> handlers_external cfg -> no_internal c -> header H_HOST r0 = Some a -> header H_ORIGIN r0 = Some o -> sanitize_ok_fix r0 = true -> stable cfg r0 -> (req_verdict parse conn_scheme cfg r0 = VRefuse -> respond parse is_part_of_origin conn_scheme cfg (c, tt) now r0 = ((c, tt), mkWire 403 [] (if rq_method r0 =? M_HEAD then [] else DENIED) [])) /\\ (req_verdict parse conn_scheme cfg r0 <> VRefuse -> pf_shape r0 = false -> respond parse is_part_of_origin conn_scheme cfg (c, tt) now r0 = (fst (respond parse is_part_of_origin conn_scheme cfg (c, tt) now (strip_origin r0)), let w := snd (respond parse is_part_of_origin conn_scheme cfg (c, tt) now (strip_origin r0)) in mkWire (w_status w) (if cc_with_cors cfg then set_header H_ACAO o (w_headers w) else w_headers w) (w_body w) (w_log w)))'),
+     'forall (parse : bytes -> option uparts) (conn_scheme : bytes) (cfg : ccfg) (app : app_handlers) (c : cache) (now : N) (r0 : request) (a o : bytes), mem_byte c_colon conn_scheme = false -> app_external app -> app_ignores_origin app -> no_internal c -> header H_HOST r0 = Some a -> header H_ORIGIN r0 = Some o -> sanitize_ok_fix r0 = true -> stable cfg r0 -> (req_verdict parse conn_scheme cfg r0 = VRefuse -> respond parse is_part_of_origin conn_scheme cfg app (c, tt) now r0 = ((c, tt), mkWire 403 [] (if rq_method r0 =? M_HEAD then [] else DENIED) [])) /\\ (req_verdict parse conn_scheme cfg r0 <> VRefuse -> pf_shape r0 = false -> respond parse is_part_of_origin conn_scheme cfg app (c, tt) now r0 = (fst (respond parse is_part_of_origin conn_scheme cfg app (c, tt) now (strip_origin r0)), let w := snd (respond parse is_part_of_origin conn_scheme cfg app (c, tt) now (strip_origin r0)) in mkWire (w_status w) (if cc_with_cors cfg then set_header H_ACAO o (w_headers w) else w_headers w) (w_body w) (w_log w)))'),
     ('cors_decision_histories',
-     'forall (parse : bytes -> option uparts) (conn_scheme : bytes) (cfg : ccfg) (ops : list (cop * N)) (t0 now : N) (r0 : request) (a o : bytes), mem_byte c_colon conn_scheme = false -> handlers_external cfg -> header H_HOST r0 = Some a -> header H_ORIGIN r0 = Some o -> sanitize_ok_fix r0 = true -> stable cfg r0 -> let st := run_conn_state parse is_part_of_origin conn_scheme cfg ([], tt) t0 ops in (req_verdict parse conn_scheme cfg r0 = VRefuse -> respond parse is_part_of_origin conn_scheme cfg st now r0 = (st, mkWire 403 [] (if rq_method r0 =? M_HEAD then [] else DENIED) [])) /\\ (req_verdict parse conn_scheme cfg r0 <> VRefuse -> pf_shape r0 = false -> respond parse is_part_of_origin conn_scheme cfg st now r0 = (fst (respond parse is_part_of_origin conn_scheme cfg st now (strip_origin r0)), let w := snd (respond parse is_part_of_origin conn_scheme cfg st now (strip_origin r0)) in mkWire (w_status w) (if cc_with_cors cfg then set_header H_ACAO o (w_headers w) else w_headers w) (w_body w) (w_log w)))'),
+     'forall (parse : bytes -> option uparts) (conn_scheme : bytes) (cfg : ccfg) (app : app_handlers) (ops : list (cop * N)) (t0 now : N) (r0 : request) (a o : bytes), mem_byte c_colon conn_scheme = false -> app_external app -> app_ignores_origin app -> header H_HOST r0 = Some a -> header H_ORIGIN r0 = Some o -> sanitize_ok_fix r0 = true -> stable cfg r0 -> let st := run_conn_state parse is_part_of_origin conn_scheme cfg app ([], tt) t0 ops in (req_verdict parse conn_scheme cfg r0 = VRefuse -> respond parse is_part_of_origin conn_scheme cfg app st now r0 = (st, mkWire 403 [] (if rq_method r0 =? M_HEAD then [] else DENIED) [])) /\\ (req_verdict parse conn_scheme cfg r0 <> VRefuse -> pf_shape r0 = false -> respond parse is_part_of_origin conn_scheme cfg app st now r0 = (fst (respond parse is_part_of_origin conn_scheme cfg app st now (strip_origin r0)), let w := snd (respond parse is_part_of_origin conn_scheme cfg app st now (strip_origin r0)) in mkWire (w_status w) (if cc_with_cors cfg then set_header H_ACAO o (w_headers w) else w_headers w) (w_body w) (w_log w)))'),
     ('preflight_eq',
-     'forall (parse : bytes -> option uparts) (conn_scheme : bytes) (cfg : ccfg), mem_byte c_colon conn_scheme = false -> handlers_external cfg -> forall (c : cache) (now : N) (r0 : request) (a o : bytes) (ms : option (list N)) (hs : list bytes) (t : N), header H_HOST r0 = Some a -> sanitize_ok_fix r0 = true -> no_internal c -> stable cfg r0 -> pf_shape r0 = true -> header H_ORIGIN r0 = Some o -> verdict_grant (req_verdict parse conn_scheme cfg r0) = Some (ms, hs, t) -> respond parse is_part_of_origin conn_scheme cfg (c, tt) now r0 = ((c, tt), mkWire 204 (let h := [(H_ACAM, methods_bytes ms); (H_ACAH, join_comma hs); (H_ACMA, dec (max_age_secs t))] in if cc_with_cors cfg then h ++ [(H_ACAO, o)] else h) [] [])'),
+     'forall (parse : bytes -> option uparts) (conn_scheme : bytes) (cfg : ccfg) (app : app_handlers), mem_byte c_colon conn_scheme = false -> app_external app -> forall (c : cache) (now : N) (r0 : request) (a o : bytes) (ms : option (list N)) (hs : list bytes) (t : N), header H_HOST r0 = Some a -> sanitize_ok_fix r0 = true -> no_internal c -> stable cfg r0 -> pf_shape r0 = true -> header H_ORIGIN r0 = Some o -> verdict_grant (req_verdict parse conn_scheme cfg r0) = Some (ms, hs, t) -> respond parse is_part_of_origin conn_scheme cfg app (c, tt) now r0 = ((c, tt), mkWire 204 (let h := [(H_ACAM, methods_bytes ms); (H_ACAH, join_comma hs); (H_ACMA, dec (max_age_secs t))] in if cc_with_cors cfg then h ++ [(H_ACAO, o)] else h) [] [])'),
     ('cors_cache_independent',
-     'forall (parse : bytes -> option uparts) (conn_scheme : bytes) (cfg : ccfg) (r0 : request) (a : bytes), mem_byte c_colon conn_scheme = false -> handlers_external cfg -> header H_HOST r0 = Some a -> sanitize_ok_fix r0 = true -> stable cfg r0 -> (forall ops now, no_internal (fst (run_conn_state parse is_part_of_origin conn_scheme cfg ([], tt) now ops))) /\\ (req_verdict parse conn_scheme cfg r0 = VRefuse \\/ (pf_shape r0 = true) -> forall c1 c2 now1 now2, no_internal c1 -> no_internal c2 -> snd (respond parse is_part_of_origin conn_scheme cfg (c1, tt) now1 r0) = snd (respond parse is_part_of_origin conn_scheme cfg (c2, tt) now2 r0) /\\ fst (respond parse is_part_of_origin conn_scheme cfg (c1, tt) now1 r0) = (c1, tt))'),
+     'forall (parse : bytes -> option uparts) (conn_scheme : bytes) (cfg : ccfg) (app : app_handlers) (r0 : request) (a : bytes), mem_byte c_colon conn_scheme = false -> app_external app -> header H_HOST r0 = Some a -> sanitize_ok_fix r0 = true -> stable cfg r0 -> (forall ops now, no_internal (fst (run_conn_state parse is_part_of_origin conn_scheme cfg app ([], tt) now ops))) /\\ (req_verdict parse conn_scheme cfg r0 = VRefuse \\/ (pf_shape r0 = true) -> forall c1 c2 now1 now2, no_internal c1 -> no_internal c2 -> snd (respond parse is_part_of_origin conn_scheme cfg app (c1, tt) now1 r0) = snd (respond parse is_part_of_origin conn_scheme cfg app (c2, tt) now2 r0) /\\ fst (respond parse is_part_of_origin conn_scheme cfg app (c1, tt) now1 r0) = (c1, tt))'),
     ('same_origin_unaffected',
-     'forall (parse : bytes -> option uparts) (conn_scheme : bytes) (cfg : ccfg) (st : state unit) (now : N) (r0 : request) (a o : bytes), mem_byte c_colon conn_scheme = false -> header H_HOST r0 = Some a -> header H_ORIGIN r0 = Some o -> sanitize_ok_fix r0 = true -> stable cfg r0 -> req_verdict parse conn_scheme cfg r0 = VSame -> pf_shape r0 = false -> respond parse is_part_of_origin conn_scheme cfg st now r0 = (fst (respond parse is_part_of_origin conn_scheme cfg st now (strip_origin r0)), let w := snd (respond parse is_part_of_origin conn_scheme cfg st now (strip_origin r0)) in mkWire (w_status w) (if cc_with_cors cfg then set_header H_ACAO o (w_headers w) else w_headers w) (w_body w) (w_log w))'),
+     'forall (parse : bytes -> option uparts) (conn_scheme : bytes) (cfg : ccfg) (app : app_handlers) (st : state unit) (now : N) (r0 : request) (a o : bytes), mem_byte c_colon conn_scheme = false -> app_ignores_origin app -> header H_HOST r0 = Some a -> header H_ORIGIN r0 = Some o -> sanitize_ok_fix r0 = true -> stable cfg r0 -> req_verdict parse conn_scheme cfg r0 = VSame -> pf_shape r0 = false -> respond parse is_part_of_origin conn_scheme cfg app st now r0 = (fst (respond parse is_part_of_origin conn_scheme cfg app st now (strip_origin r0)), let w := snd (respond parse is_part_of_origin conn_scheme cfg app st now (strip_origin r0)) in mkWire (w_status w) (if cc_with_cors cfg then set_header H_ACAO o (w_headers w) else w_headers w) (w_body w) (w_log w))'),
     ('acao_path_rewrite_refuted',
-     'exists (cfg : ccfg) (r : request), handlers_external cfg /\\ sanitize_ok_fix r = true /\\ req_verdict parse_uri CONN_SCHEME cfg r = VRefuse /\\ ~ stable cfg r /\\ snd (respond parse_uri is_part_of_origin CONN_SCHEME cfg ([], tt) 0 r) = mkWire 403 [(H_ACAO, B "https://evil.example")] DENIED []'),
+     'exists (cfg : ccfg) (r : request), app_external (marker_app (cc_handlers cfg)) /\\ sanitize_ok_fix r = true /\\ req_verdict parse_uri CONN_SCHEME cfg r = VRefuse /\\ ~ stable cfg r /\\ snd (respond parse_uri is_part_of_origin CONN_SCHEME cfg (marker_app (cc_handlers cfg)) ([], tt) 0 r) = mkWire 403 [(H_ACAO, B "https://evil.example")] DENIED []'),
     ('null_origin_v0_refuted',
-     'exists (cfg : ccfg) (r : request), handlers_external cfg /\\ sanitize_ok_fix r = true /\\ req_verdict parse_uri CONN_SCHEME cfg r = VRefuse /\\ stable cfg r /\\ snd (respond parse_uri is_part_of_origin_v0 CONN_SCHEME cfg ([], tt) 0 r) = mkWire 200 [(H_ACAO, B "null")] (B "h0:/api/x") [B "h0"]'),
+     'exists (cfg : ccfg) (r : request), app_external (marker_app (cc_handlers cfg)) /\\ sanitize_ok_fix r = true /\\ req_verdict parse_uri CONN_SCHEME cfg r = VRefuse /\\ stable cfg r /\\ snd (respond parse_uri is_part_of_origin_v0 CONN_SCHEME cfg (marker_app (cc_handlers cfg)) ([], tt) 0 r) = mkWire 200 [(H_ACAO, B "null")] (B "h0:/api/x") [B "h0"]'),
 ]
 THEOREMS = THEOREMS_PINNED
 
@@ -36,7 +36,8 @@ RULE = ("(a) cors.conn: histories of HTTP/1.1 requests over a loopback TCP pair 
         "log are compared with the extracted Coq model (correspondence) and with the property's prescription computed from cors_spec (most "
         "specific rule by the independent resolver of Model/RuleSet.v) and the reply of the same request without Origin on a cache-less server "
         "(oracle); (b) cors.check: Cors::check_cors_request called directly on constructed requests (http and https request URIs) vs. the model "
-        "and vs. cors_spec. Universe: rule sets over 13 exact/wildcard paths sharing prefixes x 9 configured origins x method lists x allow-all "
+        "and vs. cors_spec; (c) cors.parse: the parser stand-in of the model vs. http::Uri::try_from (scheme, host, port_u16 or error) on "
+        "the stand-in's grammar incl. bytes that are no URI characters. Universe: rule sets over 13 exact/wildcard paths sharing prefixes x 9 configured origins x method lists x allow-all "
         "flags x header lists x max-ages with sub-second parts; Origin values: same / other scheme / other host / other port / explicit default "
         "port / upper-case scheme or host / listed / near-miss (prefix, suffix, port digits, over-long port) / null / localhost / empty / "
         "garbage / non-text bytes / trailing path; methods GET HEAD POST PUT DELETE PATCH OPTIONS (preflight with "
@@ -47,9 +48,11 @@ ASSUMPTIONS = [
     "http::Uri::try_from is an external component: the theorems hold for every parser; the correspondence uses a transcription of http 1.5.0's "
     "parser restricted to scheme://host[:port][/path] | host[:port] | strings with a non-URI byte; origins with userinfo, brackets, percent or "
     "sub-delimiters are generated rarely, counted as out-of-domain and only checked by the weak oracle (refused unless the rule allows all origins)",
-    "handlers do not read the Origin header and the host has no vary rule on it (marker handlers: response is a function of the path)",
+    "the application's handlers are a parameter of the theorems: any stateless path-bound Prepare extensions that are not mounted on an internal "
+    "route (/./...) and do not read the Origin header; the host has no vary rule on Origin; in the run: marker handlers (response = f(path))",
     "host.options.status_code_cache_filter is the default one (403 is never stored); moka as a finite map; sequential histories on one connection",
     "HTTP/1.1 over an unsecured port: the request's own origin is http://<Host header>; cors.check also covers https request URIs",
+    "request headers are those kvarn's HTTP/1 reader hands on (lower-case names; of a repeated header line the last one counts: parse::headers inserts)",
     "requests that fail sanitize_request (C01) are answered 400/416 before any handler: for them only 'refused => no handler, no ACAO' is prescribed",
 ]
 TRUSTED = ["modelled: src/cors.rs (whole file), src/extensions.rs resolve_prime / add_prime order (Model/Registry.v reference map) / RuleSet "
@@ -61,6 +64,7 @@ LEVEL_TEXT = ("Coq theorems, for every rule set, request, parser and cache state
               "the configuration history, last added wins, whatever order sort_unstable_by produces); cors_decision (refused => exactly 403, no "
               "handler invoked, no header, cache untouched; allowed or same origin => reply and new state of the same request without Origin plus "
               "access-control-allow-origin = the origin bytes); preflight_eq (204 with exactly the rule's methods / headers / max-age rounded up); "
+              "cors_decision_histories (the same in the state left by any history of requests and clears from the empty cache); "
               "cors_cache_independent (no history stores anything under /./cors_*, and in every such cache state a refused request and a preflight "
               "get one and the same reply); same_origin_unaffected. All for requests with a Host header that pass sanitize_request, handlers not "
               "mounted on internal routes, and outside the known class acao_path_rewrite (hypothesis `stable`; acao_path_rewrite_refuted is the "
@@ -74,7 +78,7 @@ TECHNIQUE = "Coq proof (all rule sets, requests, cache states; invariant over hi
 DENIED = b"CORS request denied"
 HOSTS = [b"localhost", b"localhost", b"localhost:8080", b"example.org", b"Example.org"]
 PATHS = [b"/", b"/index.html", b"/api/x", b"/api/", b"/api/index.html", b"/api", b"/apix", b"/open", b"/img/a.png", b"/img/",
-         b"/a.", b"/a.html", b"/nohandler", b"/api/x?q=1"]
+         b"/a.", b"/a.html", b"/nohandler", b"/api/x?q=1", b"/api/x?q=2", b"/open?q=1"]
 ODD_PATHS = [b"/a/./b", b"/./cors_fail", b"/./cors_options", b"/./"]
 RULE_PATHS = [b"/api/*", b"/api/x", b"/api/", b"/api/index.html", b"/*", b"/open", b"/img/*", b"/img/a.png", b"/a.", b"/a.html", b"/",
               b"/index.html", b"/api*"]
@@ -196,7 +200,7 @@ def rand_request(rng, rules, warm=False):
 
 
 def handlers(rng):
-    return [(p, rng.choice([0, 2, 2])) for p in HANDLER_PATHS if rng.random() < 0.8]
+    return [(p, rng.choice([0, 1, 2, 2])) for p in HANDLER_PATHS if rng.random() < 0.8]
 
 
 def conn_case(c, ops, kind, ood=False):
@@ -259,7 +263,7 @@ def check_case(rng, rules, n):
         if cls == "same" and scheme == b"https":
             origin = b"https://" + host
         ood = ood or o
-        probes.append(check_probe(rng.choice(METHODS), scheme, host, rng.choice(PATHS[:13]), origin))
+        probes.append(check_probe(rng.choice(METHODS), scheme, host, rng.choice(PATHS[:13]), origin))  # paths without query
     return Case("cors.check", xl(xlist(rules), xlist(probes)), "cors.check_spec", {"kind": "check", "ood": ood})
 
 
